@@ -405,6 +405,24 @@ def gen_binary(run, C, binary):
         if got != (want if not scalar else [want]):
             run.oracle_violation("%s = %r, published definition gives %r" % (name, got, want), case)
         C.add(cbin(name, list(ints), list(bits), [int(v) for v in got]), case)
+        # other individual containers (tuple, array('b'), numpy int / bool arrays): the same bits, the same value
+        if rng.random() < 0.35:
+            import array as _array
+            import numpy as _np
+            for cname, mk in (("tuple", tuple), ("array.array('b')", lambda b: _array.array("b", b)),
+                              ("numpy int64", lambda b: _np.array(b, dtype=_np.int64)), ("numpy int8", lambda b: _np.array(b, dtype=_np.int8))):
+                st2, r2 = call(f, mk(list(bits)), *ints)
+                c2 = dict(case, container=cname, observed=repr(r2))
+                run.extra_cov["binary_container_calls"] = run.extra_cov.get("binary_container_calls", 0) + 1
+                if st2 != "ok":
+                    run.oracle_violation("%s raises on a valid %s individual: %s" % (name, cname, r2), c2)
+                    continue
+                try:
+                    g2 = [int(r2)] if scalar else [int(v) for v in r2]
+                except Exception:
+                    g2 = None
+                if g2 != ([want] if scalar else list(want)):
+                    run.oracle_violation("%s on a %s individual = %r, published definition gives %r" % (name, cname, r2, want), c2)
 
     for n in range(0, run.scale(6, 9)):
         for bits in itertools.product([0, 1], repeat=n):
@@ -459,7 +477,20 @@ def gen_binary(run, C, binary):
                 b[s:s + order] = [1] * len(b[s:s + order])
         one("royal_road1", b, (order,))
         one("royal_road2", b, (order,))
-    # bin2float through a recording inner function
+    # long blocks (order beyond the 53-bit mantissa): complete, almost complete (one zero, at either end or inside), empty
+    for _ in range(run.scale(24, 240)):
+        order = rng.choice([52, 53, 54, 55, 56, 60, 63, 64, 65, 70])
+        nblocks = rng.randint(1, 3)
+        b = []
+        for _k in range(nblocks):
+            blk = [1] * order
+            u = rng.random()
+            if u < 0.5:
+                blk[rng.choice([0, order - 1, order - 1, rng.randrange(order)])] = 0
+            elif u < 0.6:
+                blk = [0] * order
+            b += blk
+        one("royal_road1", b, (order,))
     rec = []
 
     def inner(ind, *a, **k):
@@ -926,14 +957,33 @@ def gen_movingpeaks(run, C, mp):
         sc["bfunc"] = None if basis is None else (lambda x, c=basis: c)
         sc["period"] = rng.choice([0, 0, 3, 5000])
         prox = RandomProxy(rng.randrange(2 ** 32))
+        pf_list = sc["pfunc"] if isinstance(sc["pfunc"], list) else None
+        pf_before = list(pf_list) if pf_list is not None else None
         st, m = call(mp.MovingPeaks, dim, random=prox, **sc)
         case0 = {"kind": "mp-config", "dim": dim, "npeaks": sc["npeaks"], "pfunc": repr(sc["pfunc"]), "basis": basis,
                  "period": sc["period"], "number_severity": sc.get("number_severity")}
         if st != "ok":
             run.oracle_violation("MovingPeaks(...) raises for a documented configuration: %s" % m, case0)
             continue
+        benchmarks = [(m, prox)]
+        if pf_list is not None and rng.random() < 0.6:
+            # a second benchmark configured with the SAME pfunc list object (a script that builds several landscapes
+            # from one configuration); both are evaluated and changed alternately and judged independently
+            prox2 = RandomProxy(rng.randrange(2 ** 32))
+            st2, m2 = call(mp.MovingPeaks, dim, random=prox2, **sc)
+            if st2 != "ok":
+                run.oracle_violation("MovingPeaks(...) raises for a documented configuration (second benchmark from the same "
+                                     "pfunc list): %s" % m2, case0)
+                continue
+            benchmarks.append((m2, prox2))
+            case0 = dict(case0, two_benchmarks_from_one_pfunc_list=True)
+            run.extra_cov["mp_two_benchmarks_one_pfunc_list"] = run.extra_cov.get("mp_two_benchmarks_one_pfunc_list", 0) + 1
         nchanges = 0
+        dead = False
         for step in range(run.scale(6, 20)):
+          for m, prox in benchmarks:
+            if dead:
+                break
             # evaluation = maximum over the peak functions (+ basis function)
             for _ in range(2):
                 x = [rng.uniform(0, 100) for _ in range(dim)]
@@ -948,19 +998,24 @@ def gen_movingpeaks(run, C, mp):
                             functions=[f.__name__ for f in funcs], observed=repr(r), count=count)
                 if st != "ok":
                     run.oracle_violation("MovingPeaks.__call__ raises: %s" % r, case)
+                    dead = True
+                    break
+                if not (len(funcs) == len(ps) == len(hs) == len(ws)):
+                    run.oracle_violation("per-peak lists have different lengths", case)
+                    dead = True
                     break
                 vals = [ospec[fids[f]](x, p, h, w) for f, p, h, w in zip(funcs, ps, hs, ws)]
                 if basis is not None:
                     vals.append(basis)
                 if not (isinstance(r, tuple) and len(r) == 1 and O.close(float(r[0]), max(vals))):
                     run.oracle_violation("MovingPeaks evaluation %r is not the maximum %r over its peak functions" % (r, max(vals)), case)
-                if not (len(funcs) == len(ps) == len(hs) == len(ws)):
-                    run.oracle_violation("per-peak lists have different lengths", case)
                 C.add("CMPCall %s %s %s %s %s %s %s" % (czl([fids[f] for f in funcs]), cmat(ps), cfl(hs), cfl(ws),
                                                          copt(None if basis is None else float(basis), cfloat), cfl(x),
                                                          cfl([float(r[0])])), case)
                 if count and sc["period"] > 0 and (nev + 1) % sc["period"] == 0:
                     nchanges += 1
+            if dead:
+                break
             # change
             before = len(m.peaks_function)
             k0 = len(prox.log)
@@ -969,6 +1024,7 @@ def gen_movingpeaks(run, C, mp):
             case = dict(case0, kind="mp-change", before=before, after=after, step=step)
             if st != "ok":
                 run.oracle_violation("changePeaks raises: %s" % r, case)
+                dead = True
                 break
             lens = {len(m.peaks_function), len(m.peaks_position), len(m.peaks_height), len(m.peaks_width), len(m.last_change_vector)}
             if len(lens) != 1:
@@ -987,6 +1043,11 @@ def gen_movingpeaks(run, C, mp):
                 if after != before:
                     run.oracle_violation("peak count changed although npeaks is a constant", case)
                 run.note_case(case)
+          if dead:
+            break
+        if pf_list is not None and pf_list != pf_before:
+            run.oracle_violation("MovingPeaks changed the pfunc list it was configured with (%d -> %d entries)" % (len(pf_before), len(pf_list)),
+                                 dict(case0, kind="mp-config-list"))
 
 
 def gen_rand(run, B):
